@@ -115,6 +115,8 @@ func c06FS(root string) {
 		"run/main.go":                              "package main\n",
 		// the same package checked out under two GOPATH entries
 		"gp2/src/example.com/a/a.go": "package a\n\n// second checkout\n",
+		// GOPATH-mode vendoring below a package of the first entry
+		"gp1/src/example.com/a/vendor/github.com/x/y/y.go": "package y\n",
 		// a package that only the first GOPATH entry has
 		"gp1/src/example.com/only1/o.go": "package only1\n",
 		// a go.mod without a module line between a file and its real module root
